@@ -149,7 +149,8 @@ func F32ToI32(f float32) (v int32, inRange bool) {
 	if t < 0 {
 		return math.MinInt32, false
 	}
-	return math.MaxInt32, false
+	// WGSL clamps in the floating-point domain: the largest f32 not above INT_MAX
+	return 2147483520, false
 }
 
 // F32ToU32 is the WGSL value conversion f32 -> u32.
@@ -161,7 +162,8 @@ func F32ToU32(f float32) (v uint32, inRange bool) {
 	if t < 0 {
 		return 0, false
 	}
-	return math.MaxUint32, false
+	// largest f32 not above UINT_MAX
+	return 4294967040, false
 }
 
 // onGrid reports whether x is a multiple of 2^-12 with |x| < 2^11, so that any
